@@ -70,175 +70,6 @@ fn blake2s_engine_new_refuses_bad_sizes() {
     kani::cover!(true);
 }
 
-// ---- the compression functions against RFC 7693 3.2 written out with its loops (message schedule by SIGMA, G on columns then
-// diagonals, counter words into v12/v13, inverted v14 on the last block, feed-forward h ^= v[i] ^ v[i+8]); complete over all
-// chaining values, counters, blocks and both flag values (loop bounds are constants; nothing is bounded)
-const RFC_SIGMA: [[usize; 16]; 10] = [
-    [0, 1, 2, 3, 4, 5, 6, 7, 8, 9, 10, 11, 12, 13, 14, 15],
-    [14, 10, 4, 8, 9, 15, 13, 6, 1, 12, 0, 2, 11, 7, 5, 3],
-    [11, 8, 12, 0, 5, 2, 15, 13, 10, 14, 3, 6, 7, 1, 9, 4],
-    [7, 9, 3, 1, 13, 12, 11, 14, 2, 6, 5, 10, 4, 0, 15, 8],
-    [9, 0, 5, 7, 2, 4, 10, 15, 14, 1, 11, 12, 6, 8, 3, 13],
-    [2, 12, 6, 10, 0, 11, 8, 3, 4, 13, 7, 5, 15, 14, 1, 9],
-    [12, 5, 1, 15, 14, 13, 4, 10, 0, 7, 6, 3, 9, 2, 8, 11],
-    [13, 11, 7, 14, 12, 1, 3, 9, 5, 0, 15, 4, 8, 6, 2, 10],
-    [6, 15, 14, 9, 11, 3, 0, 8, 12, 2, 13, 7, 1, 4, 10, 5],
-    [10, 2, 8, 4, 7, 6, 1, 5, 15, 11, 9, 14, 3, 12, 13, 0],
-];
-const RFC_IV_B: [u64; 8] = [
-    0x6a09e667f3bcc908, 0xbb67ae8584caa73b, 0x3c6ef372fe94f82b, 0xa54ff53a5f1d36f1, 0x510e527fade682d1, 0x9b05688c2b3e6c1f,
-    0x1f83d9abfb41bd6b, 0x5be0cd19137e2179,
-];
-const RFC_IV_S: [u32; 8] = [0x6A09E667, 0xBB67AE85, 0x3C6EF372, 0xA54FF53A, 0x510E527F, 0x9B05688C, 0x1F83D9AB, 0x5BE0CD19];
-fn rfc_g_b(v: &mut [u64; 16], a: usize, b: usize, c: usize, d: usize, x: u64, y: u64) {
-    v[a] = v[a].wrapping_add(v[b]).wrapping_add(x);
-    v[d] = (v[d] ^ v[a]).rotate_right(32);
-    v[c] = v[c].wrapping_add(v[d]);
-    v[b] = (v[b] ^ v[c]).rotate_right(24);
-    v[a] = v[a].wrapping_add(v[b]).wrapping_add(y);
-    v[d] = (v[d] ^ v[a]).rotate_right(16);
-    v[c] = v[c].wrapping_add(v[d]);
-    v[b] = (v[b] ^ v[c]).rotate_right(63);
-}
-fn rfc_f_b(h: &[u64; 8], t: u128, blk: &[u8; 128], last: bool) -> [u64; 8] {
-    let mut m = [0u64; 16];
-    let mut i = 0;
-    while i < 16 {
-        let mut w = 0u64;
-        let mut j = 0;
-        while j < 8 {
-            w |= (blk[8 * i + j] as u64) << (8 * j);
-            j += 1;
-        }
-        m[i] = w;
-        i += 1;
-    }
-    let mut v = [0u64; 16];
-    let mut i = 0;
-    while i < 8 {
-        v[i] = h[i];
-        v[i + 8] = RFC_IV_B[i];
-        i += 1;
-    }
-    v[12] ^= t as u64;
-    v[13] ^= (t >> 64) as u64;
-    if last {
-        v[14] = !v[14];
-    }
-    let mut r = 0;
-    while r < 12 {
-        let s = &RFC_SIGMA[r % 10];
-        rfc_g_b(&mut v, 0, 4, 8, 12, m[s[0]], m[s[1]]);
-        rfc_g_b(&mut v, 1, 5, 9, 13, m[s[2]], m[s[3]]);
-        rfc_g_b(&mut v, 2, 6, 10, 14, m[s[4]], m[s[5]]);
-        rfc_g_b(&mut v, 3, 7, 11, 15, m[s[6]], m[s[7]]);
-        rfc_g_b(&mut v, 0, 5, 10, 15, m[s[8]], m[s[9]]);
-        rfc_g_b(&mut v, 1, 6, 11, 12, m[s[10]], m[s[11]]);
-        rfc_g_b(&mut v, 2, 7, 8, 13, m[s[12]], m[s[13]]);
-        rfc_g_b(&mut v, 3, 4, 9, 14, m[s[14]], m[s[15]]);
-        r += 1;
-    }
-    let mut o = [0u64; 8];
-    let mut i = 0;
-    while i < 8 {
-        o[i] = h[i] ^ v[i] ^ v[i + 8];
-        i += 1;
-    }
-    o
-}
-// @harness props=C01 kind=full tier=thorough timeout=3000
-#[kani::proof]
-#[kani::unwind(17)]
-fn blake2b_compress_matches_rfc() {
-    let h0: [u64; 8] = kani::any();
-    let t0: [u64; 2] = kani::any();
-    let blk: [u8; 128] = kani::any();
-    let last: bool = kani::any();
-    let mut h = h0;
-    let mut t = t0;
-    reference::compress_b(&mut h, &mut t, &blk, if last { LastBlock::Yes } else { LastBlock::No });
-    let want = rfc_f_b(&h0, (t0[0] as u128) | ((t0[1] as u128) << 64), &blk, last);
-    let mut i = 0;
-    while i < 8 {
-        assert!(h[i] == want[i], "compress_b == F");
-        i += 1;
-    }
-    assert!(t[0] == t0[0] && t[1] == t0[1]);
-    kani::cover!(true);
-}
-fn rfc_g_s(v: &mut [u32; 16], a: usize, b: usize, c: usize, d: usize, x: u32, y: u32) {
-    v[a] = v[a].wrapping_add(v[b]).wrapping_add(x);
-    v[d] = (v[d] ^ v[a]).rotate_right(16);
-    v[c] = v[c].wrapping_add(v[d]);
-    v[b] = (v[b] ^ v[c]).rotate_right(12);
-    v[a] = v[a].wrapping_add(v[b]).wrapping_add(y);
-    v[d] = (v[d] ^ v[a]).rotate_right(8);
-    v[c] = v[c].wrapping_add(v[d]);
-    v[b] = (v[b] ^ v[c]).rotate_right(7);
-}
-fn rfc_f_s(h: &[u32; 8], t: u64, blk: &[u8; 64], last: bool) -> [u32; 8] {
-    let mut m = [0u32; 16];
-    let mut i = 0;
-    while i < 16 {
-        let mut w = 0u32;
-        let mut j = 0;
-        while j < 4 {
-            w |= (blk[4 * i + j] as u32) << (8 * j);
-            j += 1;
-        }
-        m[i] = w;
-        i += 1;
-    }
-    let mut v = [0u32; 16];
-    let mut i = 0;
-    while i < 8 {
-        v[i] = h[i];
-        v[i + 8] = RFC_IV_S[i];
-        i += 1;
-    }
-    v[12] ^= t as u32;
-    v[13] ^= (t >> 32) as u32;
-    if last {
-        v[14] = !v[14];
-    }
-    let mut r = 0;
-    while r < 10 {
-        let s = &RFC_SIGMA[r];
-        rfc_g_s(&mut v, 0, 4, 8, 12, m[s[0]], m[s[1]]);
-        rfc_g_s(&mut v, 1, 5, 9, 13, m[s[2]], m[s[3]]);
-        rfc_g_s(&mut v, 2, 6, 10, 14, m[s[4]], m[s[5]]);
-        rfc_g_s(&mut v, 3, 7, 11, 15, m[s[6]], m[s[7]]);
-        rfc_g_s(&mut v, 0, 5, 10, 15, m[s[8]], m[s[9]]);
-        rfc_g_s(&mut v, 1, 6, 11, 12, m[s[10]], m[s[11]]);
-        rfc_g_s(&mut v, 2, 7, 8, 13, m[s[12]], m[s[13]]);
-        rfc_g_s(&mut v, 3, 4, 9, 14, m[s[14]], m[s[15]]);
-        r += 1;
-    }
-    let mut o = [0u32; 8];
-    let mut i = 0;
-    while i < 8 {
-        o[i] = h[i] ^ v[i] ^ v[i + 8];
-        i += 1;
-    }
-    o
-}
-// @harness props=C01 kind=full tier=thorough timeout=3000
-#[kani::proof]
-#[kani::unwind(17)]
-fn blake2s_compress_matches_rfc() {
-    let h0: [u32; 8] = kani::any();
-    let t0: [u32; 2] = kani::any();
-    let blk: [u8; 64] = kani::any();
-    let last: bool = kani::any();
-    let mut h = h0;
-    let mut t = t0;
-    reference::compress_s(&mut h, &mut t, &blk, if last { LastBlock::Yes } else { LastBlock::No });
-    let want = rfc_f_s(&h0, (t0[0] as u64) | ((t0[1] as u64) << 32), &blk, last);
-    let mut i = 0;
-    while i < 8 {
-        assert!(h[i] == want[i], "compress_s == F");
-        i += 1;
-    }
-    assert!(t[0] == t0[0] && t[1] == t0[1]);
-    kani::cover!(true);
-}
+// A full-domain miter of reference::compress_b / compress_s against RFC 7693 3.2 written with its loops was tried here and
+// removed: goto-instrument (Kani 0.68's loop pass over the 768-statement unrolled function) needs more than 40 GB and is
+// killed by the kernel before CBMC starts.  The compression functions stay ASSUMED equal to F (units/gen/blake2.tmpl).
